@@ -1796,3 +1796,108 @@ def l_cpfempty( ctx ):
     else:
         res.ok( src, fn, 'CPF.produce renders items with and without their payload record ( %d cells )' % len( cells ))
     return res
+
+
+DEVICE = 'server/enip/device.py'
+
+
+def _object_consts( src, cname='Object' ):
+    """class-level constants of a CIP object class by value ( service numbers, context names ), under self. / cls. / <Class>."""
+    consts = {}
+    cd = src.get( cname )
+    for a_ in cd.body:
+        if isinstance( a_, ast.Assign ) and len( a_.targets ) == 1 and isinstance( a_.targets[0], ast.Name ):
+            v_ = try_fold( a_.value, consts, default=NoFold )
+            if v_ is not NoFold:
+                for pre_ in ( 'self.', 'cls.', cname + '.', '' ):
+                    consts[pre_ + a_.targets[0].id] = v_
+    return consts
+
+
+@rule( 'L-OBJREPLY', props=( 'C01', ), floor=1 )
+def l_objreply( ctx ):
+    """Object.produce regenerates every reply the Object's parsers accept: a reply is recognised by its reply bit before the generic request
+    branch looks at it, and a successful Get Attribute reply that carried no data octets parses into a reply without the data record - by
+    value, on the whole body of Object.produce with marking stand-ins for the element producers."""
+    import struct
+    res = Result( 'L-OBJREPLY' )
+    src = ctx.src( DEVICE )
+    fn = src.get( 'Object.produce' )
+    consts = _object_consts( src )
+    body = [ st for st in fn.body if not ( isinstance( st, ast.Expr ) and isinstance( st.value, ast.Constant )) ]
+    DATA = fn.args.args[-1].arg
+    def produce( data ):
+        env = dict( consts )
+        env.update( { DATA: data, 'USINT.produce': lambda v: struct.pack( '<B', v ), 'UINT.produce': lambda v: struct.pack( '<H', v ), 'EPATH.produce': lambda p_: b'<path>',
+                      'status.produce': lambda d_: struct.pack( '<BB', d_.get( 'status', 0 ), 0 ), 'typed_data.produce': lambda d_, tag_type=None: bytes( bytearray( d_['data'] )),
+                      'isinstance': isinstance, 'dict': dict, 'len': len, 'cls.__name__': 'Object', 'USINT.tag_type': 0xC6 } )
+        try:
+            out = run_block( body, env, ignore_calls=( 'log', ))
+        except Raises as exc:
+            return 'raises %s' % exc
+        except NoFold as exc:
+            if 'KeyError' in str( exc ) or 'stand-in call' in str( exc ):
+                return 'raises %s' % exc
+            raise AnalysisError( 'Object.produce: not a decision fragment: %s' % exc )
+        return out.value if out.kind == 'return' else out.kind
+    GA_SNG, GA_ALL, GA_LST = consts.get( 'GA_SNG_RPY' ), consts.get( 'GA_ALL_RPY' ), consts.get( 'GA_LST_RPY' )
+    if None in ( GA_SNG, GA_ALL, GA_LST ):
+        raise AnalysisError( 'Object: the Get Attribute reply service numbers not found' )
+    cells = (( 'a generic service reply ( 0xA2 ) with data', { 'service': 0xA2, 'status': 0, 'service_code': { 'data': [ 1, 2 ] } }, b'\xa2\x00\x00\x00\x01\x02' ),
+              ( 'a generic service request ( 0x22 ) with data', { 'service': 0x22, 'path': 'P', 'service_code': { 'data': [ 1 ] } }, b'\x22<path>\x01' ),
+              ( 'a successful Get Attribute Single reply without data', { 'service': GA_SNG, 'status': 0 }, struct.pack( '<BBBB', GA_SNG, 0, 0, 0 )),
+              ( 'a successful Get Attributes All reply without data', { 'service': GA_ALL, 'status': 0 }, struct.pack( '<BBBB', GA_ALL, 0, 0, 0 )),
+              ( 'a successful Get Attribute List reply without data', { 'service': GA_LST, 'status': 0 }, struct.pack( '<BBBB', GA_LST, 0, 0, 0 )),
+              ( 'a Get Attribute Single reply with data', { 'service': GA_SNG, 'status': 0, 'get_attribute_single': { 'data': [ 7 ] } }, struct.pack( '<BBBBB', GA_SNG, 0, 0, 0, 7 )),
+              ( 'a failed Get Attribute Single reply', { 'service': GA_SNG, 'status': 8 }, struct.pack( '<BBBB', GA_SNG, 0, 8, 0 )))
+    wrong = []
+    for what, data, want in cells:
+        got = produce( data )
+        res.cells += 1
+        if got != want:
+            wrong.append(( what, got, want ))
+    if wrong:
+        res.bad( src, fn, 'Object.produce of %s: %r, specified %r ( %d of %d cells differ )' % ( wrong[0] + ( len( wrong ), len( cells ))),
+                 'a reply the Object\'s own parser accepts cannot be regenerated: the generic REQUEST branch takes a reply that carries service_code data ( and reads its absent path ), or the typed data of a successful reply is looked up although the reply carried none' )
+    else:
+        res.ok( src, fn, 'Object.produce renders generic and Get Attribute replies with and without data ( %d cells )' % len( cells ))
+    return res
+
+
+@rule( 'L-GALREPLY', props=( 'C14', ), floor=1 )
+def l_galreply( ctx ):
+    """Get_Attribute_List reply data, as specified ( and as the layout table in Object.produce's docstring shows ): the number of attribute
+    responses, then per attribute its number, its status and - when the status is 0 - its value.  By value: the Get Attribute List branch of
+    Object.request run on a request for two existing attributes and one that does not exist."""
+    import struct
+    res = Result( 'L-GALREPLY' )
+    src = ctx.src( DEVICE )
+    fn = src.get( 'Object.request' )
+    consts = _object_consts( src )
+    br = [ i for i in ast.walk( fn ) if isinstance( i, ast.If ) ]
+    branch = None
+    for i in br:
+        for test, blk in (( i.test, i.body ), ):
+            if 'GA_LST_RPY' in txt( test ) and any( isinstance( f, ast.For ) for f in blk ):
+                branch = blk
+    if branch is None:
+        raise AnalysisError( 'Object.request: the branch that answers Get Attribute List not found' )
+    env = dict( consts )
+    env.update( { 'data': { 'service': consts.get( 'GA_LST_RPY' ), 'get_attribute_list': [ 1, 2, 99 ] }, 'result': b'', 'UINT.produce': lambda v: struct.pack( '<H', v ),
+                  'self.attribute': { '1': Record( produce=lambda: b'\x05\x00' ), '2': Record( produce=lambda: b'\x03\xb2\x80\xc5' ) },
+                  'str': str, 'dotdict': lambda *a, **kw: dict( *a, **kw ), 'type': type, 'int': int, 'ord': ord, 'len': len } )
+    try:
+        run_block( branch, env, ignore_calls=( 'log', ))
+    except NoFold as exc:
+        raise AnalysisError( 'Object.request: the Get Attribute List branch is not a decision fragment: %s' % exc )
+    rec = env['data'].get( 'get_attribute_list' )
+    got = bytes( bytearray( rec['data'] )) if isinstance( rec, dict ) and 'data' in rec else None
+    body = b'\x01\x00\x00\x00\x05\x00' + b'\x02\x00\x00\x00\x03\xb2\x80\xc5'
+    ok = got is not None and got.startswith( b'\x03\x00' + body ) and got[2 + len( body ):2 + len( body ) + 2] == b'\x63\x00' and len( got ) == 2 + len( body ) + 4
+    res.cells += 1
+    if ok:
+        res.ok( src, branch[0], 'the Get Attribute List reply carries the number of attribute responses, then number / status / value per attribute' )
+    else:
+        res.bad( src, branch[0], 'Get Attribute List reply data for attributes 1, 2, 99: %s' % ( got.hex() if got is not None else None ),
+                 'the reply data must begin with the UINT number of attribute responses ( 03 00 ) followed by ( number, status [, value ] ) groups: without it a client written from the specification takes the first attribute number for the count' )
+    return res
